@@ -12,7 +12,7 @@ import programs
 
 
 def run_family(pid, tier, family, invariants, props, cats, bounds, sample_n, j=1,
-               required_actions=(), verdict=None, note=''):
+               required_actions=(), verdict=None, note='', pads=(0,), watch=False):
     """family: list of program dicts.  bounds: (max_hist, max_cmds).  Returns (verdict, coverage)."""
     t0 = time.time()
     verdict = verdict or common.Verdict(pid)
@@ -28,7 +28,10 @@ def run_family(pid, tier, family, invariants, props, cats, bounds, sample_n, j=1
     def mc(prog):
         d = os.path.join(root, prog['name'])
         os.makedirs(d, exist_ok=True)
-        res, hs = histories.gen_histories(prog, d, j=j, max_hist=max_hist, max_cmds=max_cmds,
+        mh, mcm = prog.get('bounds', (max_hist, max_cmds))
+        if tier == 'thorough' and 'bounds' in prog:
+            mh, mcm = mh + 1, mcm + 1
+        res, hs = histories.gen_histories(prog, d, j=j, max_hist=mh, max_cmds=mcm,
                                           invariants=invariants, properties=props, workers=4,
                                           timeout=3000 if tier == 'thorough' else 900)
         return prog, d, res, hs
@@ -60,7 +63,9 @@ def run_family(pid, tier, family, invariants, props, cats, bounds, sample_n, j=1
         groups = {k: v for k, v in groups.items() if histories.interesting(k)}
         tot_groups += len(groups)
         chosen = histories.sample(groups, sample_n if sample_n else len(groups), common.seed())
-        n_ok, fails = histories.replay_all(prog, chosen, bindir, os.path.join(d, 'replay'), nworkers=10, cats=cats)
+        pad = pads[(common.seed() + len(prog['name'])) % len(pads)]
+        n_ok, fails = histories.replay_all(prog, chosen, bindir, os.path.join(d, 'replay'), nworkers=10, cats=cats,
+                                           pad=pad, watch=watch)
         tot_replayed += n_ok + len(fails)
         tot_alts += sum(len(g) for g in chosen)
         if chosen and len(samples) < 4:
@@ -94,5 +99,6 @@ def run_family(pid, tier, family, invariants, props, cats, bounds, sample_n, j=1
         'compared': sorted(cats) if cats else 'everything',
         'action_coverage': {k: v[1] for k, v in sorted(cover.items())},
         'note': note,
+        'output_padding_bytes': list(pads), 'concurrent_reader': watch,
     }
     return verdict, coverage, tool_errors, time.time() - t0
